@@ -998,9 +998,12 @@ int run_steps(int argc, char** argv)
         {
             // corecel rotate() takes sin(theta) of the reference direction as sqrt(1 - z^2):
             // within 1e-6 of the z axis that is only accurate to ~1.5e-8 (documented loss of
-            // precision near the pole), so the cone bracket is widened there
+            // precision near the pole), so the cone bracket is widened there.  That includes a
+            // step EXACTLY along z: the generator's own make_unit_vector may round the z
+            // component to +-(1 - eps/2), for which rotate() takes sin(theta) = sqrt(eps) = 1.5e-8
+            // (before the F-OPT-2 repair that case was 0/0 = NaN).
             double const sin_axis = std::sqrt(sdir[0] * sdir[0] + sdir[1] * sdir[1]);
-            rk["conetol"] = R(sin_axis > 0 && sin_axis < 1e-6 ? 3e-8 : k_cone_tol);
+            rk["conetol"] = R(sin_axis < 1e-6 ? 3e-8 : k_cone_tol);
             // scope facts of the named deviation RotateNearPoleNegativeY (F-ROT-1)
             rec["axis"] = {{"near", sin_axis > 0 && sin_axis < 0.005 * (1 + 1e-9)},
                            {"yneg", sdir[1] < 0}};
